@@ -5,6 +5,7 @@ import (
 	"math/rand"
 	"os"
 	"sort"
+	"strings"
 	"sync"
 	"time"
 
@@ -272,6 +273,29 @@ func runOne(rep *core.Report, sc Script, cfg Config) Result {
 	if r.Infra != "" {
 		core.Infra("multidb script %s [%s]: %s", sc.Key(), cfg, r.Infra)
 	}
+	// R5: the convergence monitor is the only one that depends on time (30 s against a typical 0.1 s);
+	// its verdict stands only if the same script fails the same way on an immediate second execution
+	timing := false
+	for _, f := range r.Fails {
+		if f.Monitor == "C01.converges" && strings.HasPrefix(f.Sig, "no-convergence/") {
+			timing = true
+		}
+	}
+	if timing {
+		dir := core.Scratch("mcluster")
+		r2 := Run(sc, cfg, dir)
+		_ = os.RemoveAll(dir)
+		again := false
+		for _, f := range r2.Fails {
+			if f.Monitor == "C01.converges" {
+				again = true
+			}
+		}
+		if r2.Infra == "" && !again {
+			rep.Note("multidb script %s [%s]: no convergence within 30 s on the first execution, converged on the immediate second one: not a verdict (R5)", sc.Key(), cfg)
+			r = r2
+		}
+	}
 	rep.Eval(int(r.Evals))
 	rep.TracesValidated++
 	rep.Case("multidb|"+sc.Key()+"|"+cfg.String(), r.Nontrivial)
@@ -336,7 +360,9 @@ func Stage(rep *core.Report, args *core.Args) {
 		stages = append(stages,
 			tlcStage{Name: "multidb-n3-nofilter-3db-3tx-2faults-1orphan", Cfg: "MC_MultiDB_t_n3s.cfg", Emit: true},
 			tlcStage{Name: "multidb-pair-3db-2tx-2faults-1orphan", Cfg: "MC_MultiDB_t_pair.cfg", Emit: true},
-			tlcStage{Name: "multidb-pair-3db-3tx-1fault-1orphan", Cfg: "MC_MultiDB_t_both.cfg"},
+			tlcStage{Name: "multidb-n2-orphan-ahead-3db-2tx-1fault", Cfg: "MC_MultiDB_t_o2_n2.cfg", Emit: true},
+			tlcStage{Name: "multidb-n3-orphan-ahead-3db-2tx-1fault", Cfg: "MC_MultiDB_t_o2_n3.cfg", Emit: true},
+			tlcStage{Name: "multidb-pair-3db-3tx-1fault", Cfg: "MC_MultiDB_t_both.cfg"},
 			tlcStage{Name: "multidb-n2-filter-3db-4tx-2faults-1orphan", Cfg: "MC_MultiDB_t_n2.cfg"},
 			tlcStage{Name: "multidb-n3-nofilter-3db-4tx-2faults-1orphan", Cfg: "MC_MultiDB_t_n3.cfg"},
 			tlcStage{Name: "multidb-liveness-n2", Cfg: "MC_MultiDB_live_n2.cfg"},
